@@ -807,6 +807,20 @@ func spRunFree(t *testing.T, tr *vpTrace, tid int, b *spBehaviour, seed int64) {
 	racesBefore := spRaceReports()
 	var rows []map[string]any
 	var final map[string]any
+	// written even when the testing package ends this (sub)test with FailNow/Goexit
+	defer func() {
+		health["races"] = spRaceReports() - racesBefore
+		if rows == nil {
+			rows = []map[string]any{{"ev": "Reset", "tid": tid, "peers": b.Peers, "mode": "free"}}
+		}
+		for _, r := range rows {
+			tr.Emit(r)
+		}
+		if final != nil {
+			tr.Emit(final)
+		}
+		tr.Emit(health)
+	}()
 	func() {
 		defer func() {
 			if r := recover(); r != nil {
@@ -939,17 +953,6 @@ func spRunFree(t *testing.T, tr *vpTrace, tid int, b *spBehaviour, seed int64) {
 			synctest.Wait()
 		})
 	}()
-	health["races"] = spRaceReports() - racesBefore
-	if rows == nil {
-		rows = []map[string]any{{"ev": "Reset", "tid": tid, "peers": b.Peers, "mode": "free"}}
-	}
-	for _, r := range rows {
-		tr.Emit(r)
-	}
-	if final != nil {
-		tr.Emit(final)
-	}
-	tr.Emit(health)
 }
 
 type splitMix struct{ s uint64 }
@@ -974,6 +977,11 @@ func TestVerifFree(t *testing.T) {
 			t.Fatalf("bad behaviour: %v", err)
 		}
 		tid++
-		spRunFree(t, tr, tid, &b, seed)
+		// one subtest per behaviour: a failed bubble (e.g. "race detected during execution of test")
+		// ends only that subtest, the Health line is still written and the next behaviour still runs
+		id := tid
+		t.Run(fmt.Sprintf("b%d", id), func(t *testing.T) {
+			spRunFree(t, tr, id, &b, seed)
+		})
 	})
 }
